@@ -138,4 +138,18 @@ def fragStep (st : Sys × Bool) (line : String) : (Sys × Bool) × String :=
       let inside := st.2 && Ipam.Restart.frag3B st.1 e
       (((step st.1 e).1, inside), if inside then "in" else "out")
 
+/-- membership in the fragment of `Safety.lean`: the history starts with one start-up (inside `Restart.Frag3`, from the
+empty state, which satisfies `Restart.Inv3`) and continues with events of `Safety.Frag` (`Restart.fragB`, proved sound) -/
+def frag1Step (st : Sys × Bool × Bool) (line : String) : (Sys × Bool × Bool) × String :=
+  if line.startsWith "hist " then ((Sys.init, true, true), "hist")
+  else if line.startsWith "mark " then (st, line)
+  else match parseEv line with
+    | none => ((st.1, false, false), "out")
+    | some e =>
+      let first := st.2.2
+      let inside := st.2.1 && (if first then Ipam.Restart.frag3B st.1 e else Ipam.Restart.fragB st.1 e)
+      -- environment events before the first start-up stay "first"
+      let isBoot := match e with | .boot _ _ => true | _ => false
+      (((step st.1 e).1, inside, first && !isBoot), if inside then "in" else "out")
+
 end Drv
